@@ -8,6 +8,7 @@ package checks
 import (
 	"bytes"
 	"fmt"
+	"os"
 	"strings"
 	"time"
 
@@ -253,7 +254,7 @@ func init() {
 			gs := c01genesis()
 			k, d := 2, 3
 			if tier == "thorough" {
-				k, d = 3, 4
+				k, d = 3, 3 // every block of the history deviates: ~50k histories x 10 instances for the main scenario
 			}
 			scs := []Scenario{{Name: "2val-custom-params", Cfg: gs[0], Alphabet: c01alphabet(), K: k, D: d, Tail: 1}}
 			scs = append(scs, Scenario{Name: "3val-equal-maxvals2", Cfg: gs[1], Alphabet: c01alphabet(), K: k - 1, D: d, Tail: 1})
@@ -275,7 +276,7 @@ func init() {
 		},
 		Run: func(sc *Scenario, blocks []chain.Block) HistResult {
 			tier := "quick"
-			if sc.K >= 3 {
+			if sc.K >= 3 || os.Getenv("VERIF_TIER_INTERNAL") == "thorough" {
 				tier = "thorough"
 			}
 			return RunC01History(sc.Cfg, sc.Prelude, blocks, tier)
